@@ -355,7 +355,6 @@ impl VM {
                 }
                 OpCode::Call => {
                     let num_args = self.read_u8();
-                    let base_pointer = self.stack.len() as u16 - 1 - num_args as u16;
                     let obj = self.pop();
                     if obj.tag() != Type::Function {
                         return Err(Error::TypeError(format!(
@@ -370,6 +369,17 @@ impl VM {
                             num_args, num_locals
                         )));
                     }
+
+                    // The base pointer of a frame is stored in 16 bits, so the stack can not grow beyond that
+                    // Calls that need no stack space at all are bounded by the same limit on the number of frames
+                    if self.stack.len() + num_locals as usize > u16::MAX as usize
+                        || self.frames.len() >= u16::MAX as usize
+                    {
+                        return Err(Error::IndexError(
+                            "stapel overloop: te veel geneste functie aanroepen".to_string(),
+                        ));
+                    }
+                    let base_pointer = self.stack.len() as u16 - num_args as u16;
 
                     // Make room on the stack for any local variables defined inside this function
                     for _ in 0..num_locals - num_args as u32 {
